@@ -595,6 +595,8 @@ def ev_de(tr, env, e):
         out = RDS({n: (v if v[1] == 'Identifier' else (_agg_type(e[1], v[0]), v[1])) for n, v in a.comps.items()
                    if n in e[3] or v[1] != 'Identifier'}, [], a.tags)
         out.tags = {n: (a.tags.get(n, 0) if n in e[3] else tr.fresh()) for n in out.comps}
+        for n in out.measures():
+            sc.op('i', n, out.tags[n])
         groups = {}
         for r in a.rows:
             groups.setdefault(tuple(r[g] for g in out.ids()), []).append(r)
